@@ -68,6 +68,7 @@ type runWorld struct {
 	plain      *keyed.Keyed[string, int]
 	rcv        *keyed.KeyedRefCount[string, int]
 	refs       []*runRef
+	ctors      map[string][]ctorRec // constructor calls per key (value returned, stamp)
 	rootCancel context.CancelFunc
 	nkeys      int
 	removes    map[string][]*ival // KeyedRefCount.RemoveKey calls per key (they drop every reference)
@@ -82,9 +83,12 @@ type runWorld struct {
 	nextTok    int
 }
 
+type ctorRec struct{ tok, at int }
+
 func (w *runWorld) ctor(key string) (keyed.Routine, int) {
 	c := w.c
 	w.nextTok++
+	w.ctors[key] = append(w.ctors[key], ctorRec{w.nextTok, c.Tick()})
 	var inc *incarnation
 	if w.inReset[c.S.Self()] && w.incOf[key] != nil {
 		inc = w.incOf[key] // ResetRoutine: same incarnation, the replacement must wait for the old instance
@@ -216,8 +220,23 @@ func (w *runWorld) keyStep(id, i int) {
 			if w.rcv != nil {
 				c.Descf("driver %d: AddKeyRef(%q)", id, key)
 				rr := &runRef{key: key, inv: c.Tick()}
-				rr.ref, _, _ = w.rcv.AddKeyRef(key)
+				var data int
+				rr.ref, data, _ = w.rcv.AddKeyRef(key)
 				w.refs = append(w.refs, rr)
+				// C06: the data is that of the entry that holds the key - the value of the
+				// latest constructor call for the key before the call, or of one made during it
+				ret := c.Tick()
+				ok, last := false, 0
+				for _, cr := range w.ctors[key] {
+					if cr.at < rr.inv {
+						last = cr.tok
+					} else if cr.at <= ret && cr.tok == data {
+						ok = true
+					}
+				}
+				if !ok && data != last {
+					c.Fail("C06.V2.data", "AddKeyRef(%q) returned data %d; the entry for this key carries %d (latest constructor call before the call) and no constructor call during the call returned %d", key, data, last, data)
+				}
 				c.Pub() // references are released by whichever driver picks them
 				break
 			}
@@ -421,7 +440,7 @@ func (w *runWorld) checkQuiescent() {
 }
 
 func runRun(c *core.Ctx) {
-	w := &runWorld{c: c, removes: map[string][]*ival{}, incOf: map[string]*incarnation{}, inReset: map[*simrt.Task]bool{}, ctxs: map[int]context.Context{}}
+	w := &runWorld{c: c, ctors: map[string][]ctorRec{}, removes: map[string][]*ival{}, incOf: map[string]*incarnation{}, inReset: map[*simrt.Task]bool{}, ctxs: map[int]context.Context{}}
 	c.PanicOracle = "C07.P.panic"
 	var opts []keyed.Option[string, int]
 	if c.S.PlanP(400) {
